@@ -289,6 +289,41 @@ Proof.
   exact (parent_method_self e ce p' e r h Hce Hp').
 Qed.
 
+(* ---- static entry points *)
+Lemma static_call_found c cc f : static_name t f = true -> get_class t c = Some cc ->
+  match resolve t c f with
+  | Some d => exists y, static_call t c f = Ok (Some (d, y))
+  | None => static_call t c f = Ok None
+  end.
+Proof.
+  intros Hs Hc. pose proof (static_from_resolve f c cc Hs Hc) as H. unfold static_call.
+  apply defining_inv in H. exact H.
+Qed.
+
+Lemma via_sentry_self_l c cc f s : get_class t c = Some cc -> static_name t f = true -> static_name t s = true ->
+  via_sentry_self t c f s = Ok (match resolve t c f with Some d => resolve t d s | None => None end).
+Proof.
+  intros Hc Hf Hs. unfold via_sentry_self. pose proof (static_call_found c cc f Hf Hc) as H.
+  destruct (resolve t c f) as [d|] eqn:Hd; [destruct H as [y H]|]; rewrite H; [|reflexivity]. simpl.
+  destruct (resolve_registered c f d Hd) as [cd Hcd]. unfold static_call. exact (static_from_resolve s d cd Hs Hcd).
+Qed.
+Lemma via_sentry_static_l c cc f s : get_class t c = Some cc -> static_name t f = true -> static_name t s = true ->
+  via_sentry_static t c f s = Ok (match resolve t c f with Some _ => resolve t c s | None => None end).
+Proof.
+  intros Hc Hf Hs. unfold via_sentry_static. pose proof (static_call_found c cc f Hf Hc) as H.
+  destruct (resolve t c f) as [d|] eqn:Hd; [destruct H as [y H]|]; rewrite H; [|reflexivity]. simpl.
+  unfold static_keyword_call. exact (static_from_resolve s c cc Hs Hc).
+Qed.
+Lemma via_sentry_parent_l c cc f g d p : get_class t c = Some cc -> static_name t f = true ->
+  resolve t c f = Some d -> parent_of t d = Some p ->
+  via_sentry_parent t c f g = Ok (resolve t p g).
+Proof.
+  intros Hc Hf Hd Hp. unfold via_sentry_parent. pose proof (static_call_found c cc f Hf Hc) as H.
+  rewrite Hd in H. destruct H as [y H]. rewrite H. simpl.
+  unfold parent_of in Hp. destruct (get_class t d) as [cd|] eqn:Hcd; [|discriminate].
+  exact (parent_method_l d cd p d g Hcd Hp).
+Qed.
+
 (* ---- like *)
 Lemma forallb_filter {A} (f g : A -> bool) l :
   forallb f (filter g l) = forallb (fun x => if g x then f x else true) l.
